@@ -322,10 +322,11 @@ structure FragOpts where
 
 
 mutual
-/-- literals, identifiers, `#`, the operators of the scalar fragment, `in` / `not in` / `..`, indexing,
-`len`, slicing, `all none any one count` with their closures and — with `calls` — calls of environment
-functions.  (`filter` and `map` are left out: their static result type `[]T` is not the `[]interface{}`
-the VM builds — known finding; so are members and method calls.) -/
+/-- literals, identifiers, `#`, the operators of the scalar fragment, `in` / `not in` / `..` / `**`, indexing,
+`len`, slicing, array and map literals, member access, the conditional, `all none any one count filter map`
+with their closures (`filter` / `map` are admitted by `typed2` only under the documented result type
+`[]interface{}`: the code's `[]T` is the known finding) and — behind the flags of `FragOpts` — calls of
+environment functions, `matches`, method calls. -/
 def inFrag2 (fo : FragOpts) : Node → Bool
   | .bool _ _ | .str _ _ | .int _ _ | .float _ _ | .ident _ _ _ | .pointer _ => true
   | .unary _ op x => fragUnary op && inFrag2 fo x
@@ -461,6 +462,12 @@ theorem collOK_elim {o : Option OTy} (h : collOK o = true) :
   | none => rw [hv] at h; cases h
   | some V => rw [hv] at h; exact ⟨V, rfl, h⟩
 
+/-- the receiver's type is one of the environment's (`recvTys`): `MethodsConform` speaks of these -/
+def recvOK (cfg : CheckCfg) (t : Option OTy) : Bool :=
+  match t with
+  | some τ => (recvTys cfg).contains τ
+  | none => false
+
 /-- a struct or pointer-to-struct type -/
 def objOK (t : Option OTy) : Bool :=
   match t with
@@ -518,7 +525,7 @@ def typed2 (cfg : CheckCfg) : List OTy → Node → Bool
     (objOK (synth cfg cs x) || propMapOK (synth cfg cs x) (synth cfg cs (.prop m x name ns))) && typed2 cfg cs x
   | cs, .map _ ps => typed2P cfg cs ps
   | cs, .method _ x name args _ =>
-    objOK (synth cfg cs x) && typed2 cfg cs x &&
+    objOK (synth cfg cs x) && recvOK cfg (synth cfg cs x) && typed2 cfg cs x &&
     (match synth cfg cs x with
       | some t =>
         (match methodTarget cfg.dn t name with
@@ -850,12 +857,15 @@ theorem frag2_sound (hd : E .divzero) (hi : E .index) (hbud : E .budget) (cfg : 
   | .method m x name args ns, cs, hf, ht => by
     simp only [inFrag2, Bool.and_eq_true] at hf
     simp only [typed2, Bool.and_eq_true] at ht
-    obtain ⟨⟨hobj, htx⟩, hrest⟩ := ht
+    obtain ⟨⟨⟨hobj, hrecv⟩, htx⟩, hrest⟩ := ht
     refine spec2_method hd cfg c hdn (hm hf.1.1) cs m x name args ns
-      (frag2_sound hd hi hbud cfg c henv hdn fo hw hre hm x cs hf.1.2 htx) ?_ ?_
+      (frag2_sound hd hi hbud cfg c henv hdn fo hw hre hm x cs hf.1.2 htx) ?_ ?_ ?_
     · intro t h
       rw [h] at hobj
       simpa [objOK] using hobj
+    · intro t h
+      rw [h] at hrecv
+      simpa [recvOK] using hrecv
     · intro t fn im h1 h2
       rw [h1] at hrest
       simp only [] at hrest
